@@ -6,11 +6,13 @@ use crate::Ctx;
 pub mod diag;
 pub mod dispatch;
 pub mod adapter;
+pub mod builds;
 pub mod codes;
 pub mod memwords;
 pub mod modelval;
 pub mod pure;
 pub mod readers;
+pub mod stats;
 pub mod tables;
 pub mod writers;
 
@@ -30,9 +32,11 @@ pub fn run(id: &str, ctx: &Ctx) -> (CheckMeta, Outcome) {
         "C12" => writers::c12(ctx),
         "C13" => memwords::c13(ctx),
         "C14" => writers::c14(ctx),
+        "C15" => stats::c15(ctx),
         "C16" => pure::c16(ctx),
         "C17" => pure::c17(ctx),
         "C18" => pure::c18(ctx),
+        "C19" => builds::c19(ctx),
         "C20" => pure::c20(ctx),
         _ => {
             println!("unknown property {}", id);
